@@ -1,6 +1,6 @@
 """Sidecar contracts for tefra/xsdata, keyed by module:QualName (see DESIGN.md §2.1)."""
 
-MODULES = ["c06_dates", "c03_namespaces", "c05_converters", "c10_strictness", "c09_infoset", "c06_datatypes", "c05_factory", "c14_history"]
+MODULES = ["c06_dates", "c03_namespaces", "c05_converters", "c10_strictness", "c09_infoset", "c06_datatypes", "c05_factory", "c14_history", "c17_client", "c03_writer"]
 
 # helpers executed by inlining their real source instead of through a contract (listed in evidence)
 INLINE = ["calendar:isleap"]
@@ -8,6 +8,15 @@ INLINE = ["calendar:isleap"]
 NODES = "xsdata.formats.dataclass.parsers.nodes"
 
 PROPERTIES = {
+    "C17": {
+        "min_obligations": 40,
+        "canaries": [
+            {"name": "prepare_headers-mutates-argument", "function": "xsdata.formats.dataclass.client:Client.prepare_headers",
+             "module": "xsdata.formats.dataclass.client", "target": "Client.prepare_headers",
+             "old": "result = headers.copy()", "new": "result = headers"},
+        ],
+        "decided": [], "not_decided": [], "bounded": [], "trusted_base": [], "assumptions": [],
+    },
     "C14": {
         "min_obligations": 30,
         "canaries": [
